@@ -45,7 +45,7 @@ import (
 // case description (also the replay format)
 
 type kase struct {
-	Kind   string `json:"kind"` // honest | flip | torsion | alts | qn | nodegrid | seq | dirty | order
+	Kind   string `json:"kind"` // honest | flip | torsion | alts | qn | nodegrid | seq | dirty | order | mlen
 	Key    int    `json:"key"`
 	Series string `json:"series"` // ctr | len
 	I      int64  `json:"i"`
@@ -126,6 +126,13 @@ var keys [nKeys]keyPair
 var lenSeries = []int{0, 1, 2, 31, 33, 63, 64, 65, 127, 128, 129, 255, 1000}
 
 func randomFor(k int, series string, i int64) []byte {
+	if series == "mlen" { // message-length family: i is the length itself
+		m := make([]byte, i)
+		for j := range m {
+			m[j] = byte(j*7 + k + 1)
+		}
+		return m
+	}
 	if series == "len" {
 		m := make([]byte, lenSeries[i])
 		for j := range m {
@@ -141,7 +148,7 @@ func randomFor(k int, series string, i int64) []byte {
 }
 
 func deltaFor(series string, i int64) int {
-	if series == "len" {
+	if series == "len" || series == "mlen" {
 		return 1
 	}
 	return 1 + int(i%3)
@@ -909,6 +916,9 @@ func run(c *fw.Ctx) {
 	if !runOrder(c, sz, &idx) {
 		stop("time budget: order oracle incomplete")
 	}
+	if !capped && !runLengths(c, &idx) {
+		stop("time budget: message-length family incomplete")
+	}
 	// stored witnesses next (cheap, and the part of quick that reaches the two-leading-zero padding path)
 	for _, w := range witnesses {
 		idx++
@@ -1000,6 +1010,10 @@ func replay(c *fw.Ctx, raw json.RawMessage) {
 		replaySeq(c, ks)
 		return
 	}
+	if ks.Kind == "mlen" {
+		replayLengths(c, ks)
+		return
+	}
 	if ks.Kind == "order" {
 		r, _ := orderCase(ks.Key, ks.Series, ks.I, ks.Fn)
 		report(c, ks, r, func() result { r2, _ := orderCase(ks.Key, ks.Series, ks.I, ks.Fn); return r2 })
@@ -1048,7 +1062,9 @@ func main() {
 			"sequence oracles: for 13 functions all ordered pairs over 12 pool entries and all ordered triples over 4 (result stability after later calls and caller-side overwrites, arguments unchanged, " +
 			"same result on re-use), order oracle: for the 7 witnesses and the first G messages of every key, at each of the layers ECVRFVerify / VRFVerify / verifyBlockVRF: every single-bit mutant of " +
 			"message (preBH.Random), public key and proof plus other deltas / an unrelated previous header presented before the honest triple, the honest triple, then all mutants again with the honest triple in between " +
-			"(every reject and accept verdict history-independent), and dirty-destination decoding of points over all ordered pairs of a pool of valid/invalid encodings. Every case is distinct by construction; non-trivial = an honest proof taken through both paths, a mutant submitted to the verifier, " +
+			"(every reject and accept verdict history-independent); message-length family: 2 keys x 20 message lengths 0..1000: honest pipeline, every single-bit flip of the message at all byte positions (L<=257; " +
+			"L=1000: first/middle/last 2 bytes and every 64th byte) through ECVRFVerify and VRFVerify, one-byte extensions (00, ff), one-byte truncation and same-prefix-different-tail siblings must be rejected, and proofs/outputs " +
+			"are pairwise distinct over all distinct messages of the family; and dirty-destination decoding of points over all ordered pairs of a pool of valid/invalid encodings. Every case is distinct by construction; non-trivial = an honest proof taken through both paths, a mutant submitted to the verifier, " +
 			"a crafted proof whose challenge is consistent with the guess (i.e. actually submitted), a grid point evaluated (panics on workingMiners>totalStake excluded).",
 		Assumptions: []string{
 			"the repository's own curve/scalar arithmetic is used to build adversarial proofs (only through the group law; small-order table self-checked by repeated addition)",
